@@ -144,10 +144,16 @@ class Layout:
                            additional_gammas=self.additional, cpus=cpus, split_jobs=split, this_job_id=this, **G1)
 
     def table(self, cache):
-        """Digest per job of what the cache holds."""
-        if self.kind == '1D':
-            return [dg(cache.spectra[j]) for j in range(self.nj)]
-        return [dg(cache.spectra[j // self.n][j % self.n]) for j in range(self.nj)]
+        """Digest per job of what the cache holds.  An entry (or a whole object) of unexpected form is an
+        OBSERVATION: it is recorded as an 'unreadable:...' token, which the trace spec cannot accept as F(job)."""
+        out = []
+        for j in range(self.nj):
+            try:
+                cell = cache.spectra[j] if self.kind == '1D' else cache.spectra[j // self.n][j % self.n]
+                out.append(dg(cell))
+            except Exception as e:
+                out.append('unreadable:' + type(e).__name__)
+        return out
 
     def job_of_item(self, item):
         if item is None:
@@ -556,18 +562,17 @@ def mp_records(ctx):
         for cpus in cpus_q:
             run(Layout('1D', 5, fail=[rng.randrange(5)]), cpus)
     # 2-D: every split_jobs 1..6, every piece
+    # (quick: the 3x3 pieces are built below, once through each code path, with rotating worker counts)
     pieces = {}      # (nj, split, this) -> cache object
-    for nj in ([9] if ctx.quick else [9, 16]):
+    for nj in ([] if ctx.quick else [9, 16]):
         for split in range(1, 7):
             for this in range(split):
-                if ctx.quick or nj != 9:
-                    cl = [cpus_q[(split + this) % len(cpus_q)]]
-                else:
-                    cl = cpus_q
+                cl = [cpus_q[(split + this) % len(cpus_q)]] if nj != 9 else cpus_q
                 for cp in cl:
                     cache = run(Layout('2D', nj, split, this), cp)
                     if cache is not None:
                         pieces[(nj, split, this)] = cache
+    for nj in ([9] if ctx.quick else [9, 16]):
         for k, cpus in enumerate([1, 2, 3]):
             own = [j for j in range(nj) if j % 2 == 1]
             run(Layout('2D', nj, 2, 1, fail=[own[0], own[-1]] if k == 0 else [rng.choice(own)]), cpus)
@@ -579,7 +584,69 @@ def mp_records(ctx):
         cache = run(Layout('2D', 4, 6, this), 2 if this % 2 else 1)
         if cache is not None:
             pieces[(4, 6, this)] = cache
-    return recs, pieces
+    # the SAME piece through both code paths: cpus=1 takes _single_process, cpus>1 the pool of _multiple_processes.
+    # (N, split_jobs) with N % split_jobs of every kind (0, 1, 2, 3, 4): 3x3 with split 1..6, 4x4 with split 5 (all
+    # splits in thorough), 2x2 with split 3
+    both = {}        # (nj, split, this, 'single' | 'multi') -> cache
+    want = [(9, sp) for sp in range(1, 7)] + [(16, 5), (4, 3)]
+    if not ctx.quick:
+        want += [(16, sp) for sp in (2, 3, 4, 6)] + [(4, 2), (25, 4)]
+    for nj, split in want:
+        for this in range(split):
+            both[(nj, split, this, 'single')] = run(Layout('2D', nj, split, this), 1)
+            both[(nj, split, this, 'multi')] = run(Layout('2D', nj, split, this), [2, 3, 4, 8, 16][(split + this) % 5])
+            if (nj, split, this) not in pieces:
+                pick = both[(nj, split, this, 'multi' if (split + this) % 2 else 'single')]
+                if pick is not None:
+                    pieces[(nj, split, this)] = pick
+    return recs, pieces, both
+
+
+def jobset_records(ctx, both):
+    """Complete job sets of one split whose jobs ran through DIFFERENT code paths (some with cpus=1, others with a
+    pool), merged in several orders.  Every mixture for split_jobs <= 3 (thorough: <= 6), patterns beyond.  The
+    specification: the pieces of a split partition the jobs whatever the path, so the merge of a complete set succeeds
+    and equals the single-process cache."""
+    import dadi.DFE as DFE
+    rngj = random.Random(ctx.seed + 1712)
+    recs = []
+    nid = itertools.count()
+    groups = sorted({(k[0], k[1]) for k in both})
+    for nj, split in groups:
+        lay0 = Layout('2D', nj)
+        F = reference_table(lay0)
+        if split <= 3 or not ctx.quick:
+            assigns = list(itertools.product(['single', 'multi'], repeat=split))
+        else:
+            alt1 = tuple('single' if t % 2 == 0 else 'multi' for t in range(split))
+            alt2 = tuple('multi' if t % 2 == 0 else 'single' for t in range(split))
+            assigns = [tuple(['single'] * split), tuple(['multi'] * split), alt1, alt2,
+                       tuple(['multi'] + ['single'] * (split - 1)), tuple(['single'] * (split - 1) + ['multi'])]
+        for asg in assigns:
+            objs0 = [both.get((nj, split, t, asg[t])) for t in range(split)]
+            orders = [list(range(split))]
+            if split > 1:
+                orders.append(list(range(split))[::-1])
+            if split > 2:
+                sh = list(range(split))
+                rngj.shuffle(sh)
+                orders.append(sh)
+            for order in orders:
+                objs = [objs0[t] for t in order]
+                if any(o is None for o in objs):     # a piece whose construction failed is already a violation of its own record
+                    out = {'raised': 'piece-missing', 'table': []}
+                    tabs = [(lay0.table(o) if o is not None else ['none'] * nj) for o in objs]
+                else:
+                    tabs = [lay0.table(o) for o in objs]
+                    try:
+                        m = DFE.Cache2D.merge(objs)
+                        out = {'raised': 'none', 'table': lay0.table(m)}
+                    except Exception as e:
+                        out = {'raised': type(e).__name__, 'table': [], 'msg': str(e)[:100]}
+                recs.append({'id': 'js-%d' % next(nid), 'op': 'jobset', 'site': 'Cache2D.merge(mixed paths)',
+                             'in': {'nj': nj, 'split': split, 'paths': list(asg), 'order': order, 'pieces': tabs, 'F': F},
+                             'out': out})
+    return recs
 
 
 def merge_records(ctx, pieces):
@@ -599,13 +666,24 @@ def merge_records(ctx, pieces):
         o = copy.deepcopy(obj)
         if eps == 0.0:
             return o
-        own = [j for j in range(lay.nj) if j % split == t]
-        j = rngm.choice(own)
-        arr = np.ma.getdata(o.spectra[j // lay.n][j % lay.n])
-        cells = [(r, c) for r in range(arr.shape[0]) for c in range(arr.shape[1])
-                 if arr[r, c] != 0 and (r, c) not in ((0, 0), (arr.shape[0] - 1, arr.shape[1] - 1))]
-        r, c = rngm.choice(cells)
-        arr[r, c] = np.nextafter(arr[r, c], np.inf) if eps is None else arr[r, c] * (1.0 + eps)
+        # perturb an entry the piece really HOLDS (whatever jobs it was supposed to own): the verdict follows the
+        # recorded tables, so a piece of unexpected content is judged by TLC, not by an exception here
+        held = []
+        for j in range(lay.nj):
+            try:
+                cell = o.spectra[j // lay.n][j % lay.n]
+                arr = np.ma.getdata(cell) if cell is not None else None
+                if arr is not None and getattr(arr, 'ndim', 0) >= 1 and arr.size and np.any(arr != 0):
+                    held.append(arr)
+            except Exception:
+                continue
+        if not held:
+            return o
+        arr = rngm.choice(held)
+        flat = arr.reshape(-1)                      # a view for the contiguous arrays dadi stores
+        idx = [i for i in range(flat.size) if flat[i] != 0 and 0 < i < flat.size - 1] or [i for i in range(flat.size) if flat[i] != 0]
+        i = rngm.choice(idx)
+        flat[i] = np.nextafter(flat[i], np.inf) if eps is None else flat[i] * (1.0 + eps)
         return o
 
     def emit(nj, split, case, objs, lay0, F):
@@ -614,7 +692,7 @@ def merge_records(ctx, pieces):
             m = DFE.Cache2D.merge(objs)
             out = {'raised': 'none', 'table': lay0.table(m)}
         except Exception as e:
-            out = {'raised': type(e).__name__, 'table': []}
+            out = {'raised': type(e).__name__, 'table': [], 'msg': str(e)[:100]}
         recs.append({'id': 'mg-%d' % next(nid), 'op': 'merge', 'site': 'Cache2D.merge',
                      'in': {'nj': nj, 'split': split, 'case': ['%s%d' % c for c in case], 'pieces': tabs, 'F': F},
                      'out': out})
@@ -1754,6 +1832,11 @@ def mutate_a(rec):
             out['outcome'] = 'ok'
             out['table'] = list(rec['in']['F'])
         return rec
+    if rec['op'] == 'jobset':
+        if out['raised'] != 'none':
+            return None
+        out['table'][len(out['table']) // 2] = 'none'          # a hole in the merged cache
+        return rec
     if rec['op'] == 'merge':
         if out['raised'] == 'none':
             out['table'][len(out['table']) // 2] = 'feedfacefeedfacefeed'
@@ -1808,6 +1891,8 @@ def nontrivial_a(r):
     if r['op'] == 'mp_cache':
         c = i['c']
         return ('m', i['kind'], i['cpus'], c['nj'], c['split'], c['this'], tuple(c['fail']))
+    if r['op'] == 'jobset':
+        return ('j', i['nj'], i['split'], tuple(i['paths']), tuple(i['order']))
     return ('g', i['nj'], i['split'], tuple(i['case']))
 
 
@@ -1857,6 +1942,9 @@ def _what(rec, c):
     if rec['op'] == 'mp_cache':
         return '%s cpus=%d jobs=%d split=%d/%d failing=%s (real processes): clause %s violated; outcome=%s' % (
             rec['site'], i['cpus'], i['c']['nj'], i['c']['this'], i['c']['split'], i['c']['fail'], c, rec['out'].get('outcome'))
+    if rec['op'] == 'jobset':
+        return 'Cache2D.merge of the complete job set split_jobs=%d of a %d-job cache, pieces built by %s, order %s: clause %s violated; raised=%s %s' % (
+            i['split'], i['nj'], i['paths'], i['order'], c, rec['out'].get('raised'), rec['out'].get('msg', ''))
     if rec['op'] == 'merge':
         return 'Cache2D.merge of pieces %s (split_jobs=%d): clause %s violated; raised=%s' % (i['case'], i['split'], c, rec['out'].get('raised'))
     extra = ''
@@ -1888,8 +1976,8 @@ def run(ctx):
     recs_a = replay_many(jobs, procs=4 if ctx.quick else 8)
     info['replay_wall_s'] = round(time.time() - ta, 1)
     tm = time.time()
-    mp_recs, pieces = mp_records(ctx)
-    mg_recs = merge_records(ctx, pieces)
+    mp_recs, pieces, both = mp_records(ctx)
+    mg_recs = merge_records(ctx, pieces) + jobset_records(ctx, both)
     info['mp_runs'] = len(mp_recs)
     info['merge_cases'] = len(mg_recs)
     info['mp_wall_s'] = round(time.time() - tm, 1)
